@@ -137,8 +137,73 @@ def explain(e):
     return ",".join(bad) if bad else "inequality/bookkeeping"
 
 
+def replay_setup(cases, version):
+    """spec -> code for one step: the cases of Optim.tla (state before the call) are loaded into a real MMA object, one design
+    variable per case, and MMA.mmasub is called once; offsets, asymptotes and the admissible interval handed to the sub-problem
+    solver must be the specification's, and the convex approximation must reproduce value and gradient at x"""
+    import pymoto as pym
+    import pymoto.common.mma as mma_mod
+    qf = lambda v: v[0] / v[1]
+    out = []
+    groups = {}
+    for c in cases:
+        groups.setdefault((tuple(c["st"]["albefa"]), c["st"]["first"]), []).append(c)
+    for (albefa, first), grp in sorted(groups.items()):
+        n = len(grp)
+        col = lambda k: np.array([qf(c["st"][k]) for c in grp])
+        x = pym.Signal("x", col("x"))
+        resp = [pym.Signal("g0", 0.0), pym.Signal("g1", 0.0)]
+        mma = pym.MMA(pym.Network(), [x], resp, xmin=col("xmin"), xmax=col("xmax"), move=col("move"), verbosity=0, albefa=qf(albefa), mmaversion=version)
+        mma.n = n
+        mma.offset = col("off")
+        if not first:
+            mma.xold1, mma.xold2 = col("xo1"), col("xo2")
+        rng = np.random.default_rng(n)
+        g = np.array([0.7, -0.2])
+        dg = rng.random((2, n)) - 0.5
+        got = {}
+        orig = mma_mod.subsolv
+
+        def fake(epsimin, low, upp, alfa, beta, P, Q, a0, a, b, c, d, x0=None):
+            got.update(low=low.copy(), upp=upp.copy(), alfa=alfa.copy(), beta=beta.copy(), P=P.copy(), Q=Q.copy(), b=b.copy())
+            return x0.copy(), np.zeros(1), 0.0, np.zeros(1), np.zeros(n), np.zeros(n), np.zeros(1), 0.0, np.zeros(1)
+        mma_mod.subsolv = fake
+        try:
+            mma.mmasub(col("x").copy(), g, dg)
+        except Exception as e:
+            out.append(("setup/raise", "mmasub raised %s: %s" % (type(e).__name__, str(e)[:150]), grp[0]))
+            continue
+        finally:
+            mma_mod.subsolv = orig
+        xv = col("x")
+        ux, xl = got["upp"] - xv, xv - got["low"]
+        approx = got["P"] @ (1 / ux) + got["Q"] @ (1 / xl)
+        grad = got["P"] / ux ** 2 - got["Q"] / xl ** 2
+        okv = abs((approx[1] - got["b"][0]) - g[1]) < 1e-9 * max(1.0, np.abs(approx).max())
+        for j, c in enumerate(grp):
+            for key, val in (("off2", mma.offset[j]), ("low", got["low"][j]), ("upp", got["upp"][j]), ("alfa", got["alfa"][j]), ("beta", got["beta"][j])):
+                e = qf(c[key])
+                if abs(val - e) > 1e-12 * max(1.0, abs(e)):
+                    out.append(("setup/" + key, "mmasub (%s) with x=%s xold1=%s xold2=%s offset=%s bounds [%s, %s] albefa=%s move=%s first=%s: %s = %.15g, specification %.15g" % (
+                        version, *[qf(c["st"][k]) for k in ("x", "xo1", "xo2", "off", "xmin", "xmax", "albefa", "move")], first, key, val, e), c))
+                    break
+            else:
+                if not okv or not np.allclose(grad[:, j], dg[:, j], rtol=1e-3 if "2007" in version else 1e-9, atol=1e-4 if "2007" in version else 1e-12):
+                    out.append(("setup/approximation", "the convex approximation does not reproduce value / gradient at x (case %s)" % c["st"], c))
+                else:
+                    out.append(None)
+    return out
+
+
 def run(chk, replay=None):
     thorough = chk.tier == "thorough"
+    if replay is not None and "st" in replay:
+        for version in ("Svanberg1987", "Svanberg2007"):
+            for res in replay_setup([replay], version):
+                chk.case({"setup": replay["st"], "version": version})
+                if res:
+                    chk.violation("C10/" + res[0], res[1], res[2])
+        return
     chk.extra["rule"] = ("a trace is one MMA run on a generated convex problem (one event per sub-problem); non-trivial = at least 3 iterations")
     chk.assumptions += ["fixed-point unit 1e-5 with a slack of 2 units per inequality", "the interior-point algorithm itself is not decided; its "
                         "result is checked by an independent KKT residual ([O])", "[O] convergence: distance to the analytic optimum < 1e-3 after the run, constraints <= 1e-6"]
@@ -152,6 +217,20 @@ def run(chk, replay=None):
     r = tlc.run(name, cfg, extra_modules={name: mod}, expect_violation=True)
     if r.violated is None:
         raise tlc.TLCError("negative variant no_xmin of Optim.tla was not refuted")
+    # [R] every case of the set-up on the real MMA.mmasub (both versions)
+    if replay is None:
+        name, mod, cfg = tlc.mc("Optim", consts, invariants=["EmitSetup"])
+        r = chk.tlc(name, cfg, label="Optim emit set-up cases", extra_modules={name: mod}, workers=1)
+        cases = [v[0] for tag, v in r.printed if tag == "SETUP"]
+        for version in ("Svanberg1987", "Svanberg2007"):
+            results = replay_setup(cases, version)
+            nviol = 0
+            for res in results:
+                chk.count()
+                if res and nviol < 40:
+                    nviol += 1
+                    chk.violation("C10/" + res[0], res[1], res[2])
+        chk.extra["setup_cases"] = len(cases)
     if replay is not None:
         traces = [replay["trace"]]
     else:
